@@ -63,11 +63,17 @@ type faultSpec struct {
 	RsDelete    []string `json:"rs_delete"`    // replica-set deletions fail
 	RsCreate    bool     `json:"rs_create"`    // replica-set creation fails
 	ListFail    []string `json:"list_fail"`    // List calls for these kinds fail (reads: nothing is recorded)
+	DeleteGone  []string `json:"delete_gone"`  // these pods vanish just before the controller's Delete reaches the store: it answers NotFound
 	GetFail     []string `json:"get_fail"`     // Get calls for these kinds fail with a server error ("DaemonSet": the old DaemonSet of a migration)
 	// MidEdit: a user edit of the reconciled ExtendedDaemonSet ("image:img:2", ...) that lands in the middle of the
 	// reconcile, right after its List of the replica sets. The controller works on the copy it read before; its later
 	// writes on the ExtendedDaemonSet itself meet the API server's optimistic concurrency: refused with a conflict.
 	MidEdit string `json:"mid_edit"`
+	// MidCmd: a kubectl-eds command ("canary_fail:<eds>", "canary_pause:<eds>", ...) that lands in the middle of a replica-set
+	// reconcile, right after its List of the pods. The controller goes on with the copies it read before; when the command
+	// changed the reconciled replica set itself (canary fail writes its status), the controller's own status write is
+	// refused with a conflict.
+	MidCmd string `json:"mid_cmd"`
 	Lost        bool     `json:"lost"`         // failing calls are applied, then the error is returned
 	StopAt      int      `json:"stop_at"`      // >0: the process stops (panic) before the k-th write of this op
 	StopAfter   int      `json:"stop_after"`   // >0: the process stops right after the k-th write of this op
@@ -199,7 +205,20 @@ type world struct {
 	rawSettingSpec map[string]json.RawMessage
 	savedCanary    *v1alpha1.ExtendedDaemonSetSpecStrategyCanary // edit "canary:off" keeps the block for "canary:on"
 	midDone        bool   // the fault MidEdit was applied in this op
+	midCmdDone     bool   // the fault MidCmd was applied in this op
+	midConflictErs bool   // ... and changed the reconciled replica set: its status write conflicts
 	curOp          opSpec // the op being run
+}
+
+// deleteGone: the fault DeleteGone for this pod, during a reconcile.
+func (w *world) deleteGone(name string) bool {
+	w.mu.Lock()
+	defer w.mu.Unlock()
+	if !w.inReconcile || w.faults == nil {
+		return false
+	}
+
+	return contains(w.faults.DeleteGone, name) || contains(w.faults.DeleteGone, "*")
 }
 
 // getFails: the fault GetFail for the kind of obj, during a reconcile.
@@ -229,6 +248,41 @@ func (w *world) midEdit() {
 	op := opSpec{Kind: "ExtendedDaemonSet", Ns: w.curOp.Ns, Name: w.curOp.Name, Cmd: f.MidEdit}
 	w.mu.Unlock()
 	_ = w.edit(op)
+}
+
+// midCmd applies the fault MidCmd once per reconcile of the replica-set controller.
+func (w *world) midCmd() {
+	w.mu.Lock()
+	f := w.faults
+	if !w.inReconcile || f == nil || f.MidCmd == "" || w.midCmdDone || w.curOp.Ctrl != "ers" {
+		w.mu.Unlock()
+
+		return
+	}
+	w.midCmdDone = true
+	ns, rsName := w.curOp.Ns, w.curOp.Name
+	w.mu.Unlock()
+	cmd, eds, _ := strings.Cut(f.MidCmd, ":")
+	ctx := context.TODO()
+	before := &v1alpha1.ExtendedDaemonSetReplicaSet{}
+	_ = w.raw.Get(ctx, types.NamespacedName{Namespace: ns, Name: rsName}, before)
+	switch cmd {
+	case "canary_pause":
+		_ = plcanary.VerifRunPause(w.raw, ns, eds, true)
+	case "canary_unpause":
+		_ = plcanary.VerifRunPause(w.raw, ns, eds, false)
+	case "canary_validate":
+		_ = plcanary.VerifRunValidate(w.raw, ns, eds)
+	case "canary_fail":
+		_ = plcanary.VerifRunFail(w.raw, ns, eds)
+	}
+	after := &v1alpha1.ExtendedDaemonSetReplicaSet{}
+	_ = w.raw.Get(ctx, types.NamespacedName{Namespace: ns, Name: rsName}, after)
+	if before.ResourceVersion != after.ResourceVersion {
+		w.mu.Lock()
+		w.midConflictErs = true
+		w.mu.Unlock()
+	}
 }
 
 func (w *world) listFails(list client.ObjectList) bool {
@@ -500,6 +554,12 @@ func (w *world) shouldFail(verb string, obj client.Object) bool {
 			return contains(f.PatchPods, o.Name) || contains(f.PatchPods, "*")
 		}
 	case *v1alpha1.ExtendedDaemonSetReplicaSet:
+		w.mu.Lock()
+		conflict := w.midConflictErs
+		w.mu.Unlock()
+		if conflict && verb == "status_update" {
+			return true
+		}
 		switch verb {
 		case "status_update":
 			return f.Status
@@ -566,6 +626,9 @@ func (w *world) build(objs []client.Object) {
 			if _, ok := list.(*v1alpha1.ExtendedDaemonSetReplicaSetList); ok && err == nil {
 				w.midEdit()
 			}
+			if _, ok := list.(*corev1.PodList); ok && err == nil {
+				w.midCmd()
+			}
 			if sl, ok := list.(*v1alpha1.ExtendedDaemonsetSettingList); ok && err == nil {
 				for i := range sl.Items {
 					w.verbatim(&sl.Items[i])
@@ -621,6 +684,38 @@ func (w *world) build(objs []client.Object) {
 				return errInjected
 			}
 			fail := w.shouldFail("delete", obj)
+			if p, isPod := obj.(*corev1.Pod); isPod && !fail && w.deleteGone(p.Name) {
+				// the pod disappeared between the controller's List and its Delete (the node was drained, a user deleted it):
+				// the call fails with a genuine NotFound
+				w.record("delete", obj, true, false)
+				// (the pod is taken out of the store for the duration of the call and put back unchanged afterwards, so that
+				// the rest of the sync - which lists the pods again - sees the store it read: only this call is affected)
+				w.delMu.Lock()
+				defer w.delMu.Unlock()
+				cur := &corev1.Pod{}
+				var saved *corev1.Pod
+				if gerr := w.raw.Get(ctx, client.ObjectKeyFromObject(obj), cur); gerr == nil {
+					saved = cur.DeepCopy()
+					cur.Finalizers = nil
+					_ = w.raw.Update(ctx, cur)
+					_ = w.raw.Delete(ctx, cur)
+				}
+				err := c.Delete(ctx, obj, opts...)
+				if saved != nil {
+					saved.ResourceVersion = ""
+					st := saved.Status.DeepCopy()
+					if cerr := w.raw.Create(ctx, saved); cerr == nil {
+						saved.Status = *st
+						_ = w.raw.Status().Update(ctx, saved)
+					}
+				}
+				w.afterWrite()
+				if err == nil {
+					err = errInjected
+				}
+
+				return err
+			}
 			w.record("delete", obj, fail, false)
 			if fail && !w.lost() {
 				return errInjected
@@ -879,6 +974,8 @@ func (w *world) runOp(op opSpec) (so stepOut) {
 	w.faults = op.Faults
 	w.writes = 0
 	w.midDone = false
+	w.midCmdDone = false
+	w.midConflictErs = false
 	w.curOp = op
 	ctx := context.TODO()
 	so.Now = time.Now().UnixNano()
@@ -1387,6 +1484,17 @@ func (w *world) edit(op opSpec) error {
 			return fmt.Errorf("image edit needs an ExtendedDaemonSet with a container")
 		}
 		e.Spec.Template.Spec.Containers[0].Image = arg
+	case "tmplannot":
+		// an annotation on the pod template (spec.template.metadata.annotations)
+		e, ok := obj.(*v1alpha1.ExtendedDaemonSet)
+		if !ok {
+			return fmt.Errorf("tmplannot edit needs an ExtendedDaemonSet")
+		}
+		k, v := kv()
+		if e.Spec.Template.Annotations == nil {
+			e.Spec.Template.Annotations = map[string]string{}
+		}
+		e.Spec.Template.Annotations[k] = v
 	case "canary":
 		// "canary:off" drops spec.strategy.canary (kept aside), "canary:on" puts it back
 		e, ok := obj.(*v1alpha1.ExtendedDaemonSet)
